@@ -360,14 +360,19 @@ fn round_trip<S: SelGen>(rep: &mut Report, sel: &S, vclass: &str, ctx: &Value) -
                 rep.count(&format!("issued-token-length-{}", tok.len()), 1);
             }
             let spelled = [("pct-encoded", format!("page_token={}", pct(tok.as_bytes()))), ("raw", format!("page_token={tok}"))];
+            let mut accepted_back = true;
             for (spelling, q) in spelled {
                 let wit = |got: String| {
                     json!({"case": ctx, "selector": own, "token": tok, "token_len": tok.len(), "query_spelling": spelling, "accept_result": got})
                 };
                 match accept::<S>(&q) {
-                    Err(p) => rep.violate("C14:accepting-panics", wit(format!("panic at {}: {}", p.location, p.message))),
+                    Err(p) => {
+                        accepted_back = false;
+                        rep.violate("C14:accepting-panics", wit(format!("panic at {}: {}", p.location, p.message)))
+                    }
                     Ok(Accepted::Next(back)) => {
                         if !same_sel(&back, sel) {
+                            accepted_back = false;
                             rep.violate(
                                 format!("C14:issued-token-yields-different-selector:{}", S::NAME),
                                 wit(serde_json::to_string(&back).unwrap_or_default()),
@@ -376,8 +381,12 @@ fn round_trip<S: SelGen>(rep: &mut Report, sel: &S, vclass: &str, ctx: &Value) -
                             rep.count("round-trips-equal", 1);
                         }
                     }
-                    Ok(Accepted::First(_)) => rep.violate("C14:token-routed-as-first-page", wit("First".into())),
+                    Ok(Accepted::First(_)) => {
+                        accepted_back = false;
+                        rep.violate("C14:token-routed-as-first-page", wit("First".into()))
+                    }
                     Ok(Accepted::Err(e)) => {
+                        accepted_back = false;
                         let sig = if tok.len() > BOUND {
                             "C14:issued-token-refused:over-long-token-issued".to_string()
                         } else {
@@ -387,7 +396,8 @@ fn round_trip<S: SelGen>(rep: &mut Report, sel: &S, vclass: &str, ctx: &Value) -
                     }
                 }
             }
-            Some(tok)
+            // the follow-up families need a token that works
+            accepted_back.then_some(tok)
         }
     }
 }
@@ -833,12 +843,19 @@ fn live_client(rep: &mut Report, addr: std::net::SocketAddr, seed: u64, shard: u
         let ctx = json!({"seed": seed, "shard": shard, "case": c, "engine": "c14-live"});
         let uid = vmon::evlog::next_uid();
         // own valid token
-        let own_sel = SelStr { last: any_string(&mut rng).0.chars().take(40).collect() };
+        let near_bound = rng.chance(1, 6);
+        let own_sel = if near_bound {
+            // token length 496..=512: JSON text of the token 370..=384 bytes
+            let total = 370 + rng.usize(15);
+            SelStr::sized(&mut rng, total - 24).expect("sized")
+        } else {
+            SelStr { last: any_string(&mut rng).0.chars().take(40).collect() }
+        };
         let own_tok = b64url(token_json(&json!("v1"), &serde_json::to_value(&own_sel).unwrap()).as_bytes());
         // page kind
         let (page_kind, tokq, want_sel): (&str, Option<String>, Option<String>) = match rng.below(4) {
             0 | 1 => ("first", None, None),
-            2 if own_tok.len() <= BOUND => ("next-own-token", Some(format!("page_token={}", pct(own_tok.as_bytes()))), Some(serde_json::to_string(&own_sel).unwrap())),
+            2 if own_tok.len() <= BOUND => (if near_bound { "next-own-token-near-bound" } else { "next-own-token" }, Some(format!("page_token={}", pct(own_tok.as_bytes()))), Some(serde_json::to_string(&own_sel).unwrap())),
             _ => match &server_token {
                 Some((t, s)) => ("next-server-token", Some(format!("page_token={}", pct(t.as_bytes()))), Some(s.clone())),
                 None => ("first", None, None),
@@ -862,9 +879,16 @@ fn live_client(rep: &mut Report, addr: std::net::SocketAddr, seed: u64, shard: u
                 if tokq.is_none() && rng.bool() {
                     parts.push("sort=ascending".into());
                 }
+                // beside a token, scan parameters are ignored whatever they are
+                let mut beside = "";
+                if tokq.is_some() && rng.chance(1, 3) {
+                    beside = *rng.pick(&["min=abc", "sort=sideways", "zzz=1", "min=7&sort=descending", "prefix=%FF"]);
+                    parts.push(beside.to_string());
+                }
                 rng.shuffle(&mut parts);
                 let lc = if LIMITS_VALID.contains(&l.as_str()) { l.clone() } else { "random-valid".into() };
-                (format!("{page_kind}|limit={lc}"), parts.join("&"), Want::Limit(n.min(10000) as u32))
+                let bc = if beside.is_empty() { String::new() } else { format!("|beside:{beside}") };
+                (format!("{page_kind}|limit={lc}{bc}"), parts.join("&"), Want::Limit(n.min(10000) as u32))
             }
             3 => {
                 let mut parts: Vec<String> = tokq.clone().into_iter().collect();
@@ -997,7 +1021,14 @@ fn live_client(rep: &mut Report, addr: std::net::SocketAddr, seed: u64, shard: u
             Want::Limit(n) => {
                 handler = Some(true);
                 if resp.status != 200 {
-                    rep.violate("C14:valid-limit-refused", wit(json!({"expected_limit": n})));
+                    let sig = if what.starts_with("next-own-token-near-bound") {
+                        "C14:valid-token-near-bound-refused"
+                    } else if what.contains("|beside:") {
+                        "C14:other-parameter-changes-token-outcome-over-the-wire"
+                    } else {
+                        "C14:valid-limit-refused"
+                    };
+                    rep.violate(sig, wit(json!({"expected_limit": n})));
                     handler = None;
                 } else if echoed_limit != Some(n.into()) {
                     rep.violate(
